@@ -288,21 +288,30 @@ def laws_triple(ctx, rep, xn, x, yn, y, zn, z, base):
 # --------------------------------------------------------------------------- expression trees
 
 def trees(depth, leaves):
-    """all expressions: leaf | inv(e) | pow(e,n) n in {2,-1,0} | (e1 * e2) | (e1 / e2), up to depth"""
-    level = [('leaf', l) for l in leaves]
+    """all expressions: leaf | inv(e) | pow(e,n) n in {2,-1,0} | (e1 * e2) | (e1 / e2), up to depth 2 (5620 expressions over 4 leaves);
+    the third level (thorough tier) is bounded: every depth-2 expression under each unary operator and combined with each LEAF on either
+    side (the full third level has ~6e7 members)"""
+    leaf = [('leaf', l) for l in leaves]
+    level = list(leaf)
     allx = list(level)
     for d in range(1, depth + 1):
         new = []
         prev_all = list(allx)
+        lv = set(level)
         for e in level:
             new.append(('inv', e))
             for n in (2, -1, 0):
                 new.append(('pow', e, n))
-        for a in prev_all:
-            for b in prev_all:
-                if a in level or b in level:
-                    new.append(('mul', a, b))
-                    new.append(('div', a, b))
+        if d <= 2:
+            for a in prev_all:
+                for b in prev_all:
+                    if a in lv or b in lv:
+                        new.append(('mul', a, b))
+                        new.append(('div', a, b))
+        else:
+            for a in level:
+                for b in leaf:
+                    new += [('mul', a, b), ('mul', b, a), ('div', a, b), ('div', b, a)]
         level = new
         allx += new
     return allx
